@@ -115,8 +115,15 @@ func (s *Solver) roundTrip(text string, hardTimeout time.Duration) ([]string, er
 	}
 }
 
+// AcceptAbstractSat: a satisfiable answer of the abstracted query (floating
+// point results unconstrained, mul/div uninterpreted) is returned as a
+// candidate counterexample. Only used where the counterexample is replayed
+// natively, which is what decides.
+var AcceptAbstractSat = false
+
 type QueryResult struct {
-	Verdict Verdict
+	Abstract bool
+	Verdict  Verdict
 	Model   map[string]string // input var name -> hex (bit-vectors) / "true"/"false"
 	Solver  string
 	Ms      int64
@@ -484,7 +491,7 @@ func (p *SolverPool) Solve(asserts []*Term, timeoutMs int, portfolio []SolverKin
 		}
 		sc, _, _ := ScriptOpt(ab, extraDecls(), fpa)
 		termMu.Unlock()
-		cands = append(cands, cand{kindZ3, sc, false, label, true})
+		cands = append(cands, cand{kindZ3, sc, AcceptAbstractSat, label, !AcceptAbstractSat})
 	}
 	ch := make(chan QueryResult, len(cands))
 	for _, c := range cands {
@@ -493,6 +500,9 @@ func (p *SolverPool) Solve(asserts []*Term, timeoutMs int, portfolio []SolverKin
 			r := run1(c.k, c.sc, c.model, c.label)
 			if c.onlyUnsat && r.Verdict != Unsat {
 				r.Verdict = Unknown
+			}
+			if c.label != "" && strings.Contains(c.label, "abstracted") && r.Verdict == Sat {
+				r.Abstract = true
 			}
 			ch <- r
 		}()
